@@ -169,12 +169,33 @@ def smooth_desc(rnd, kind, cond):
     return d
 
 
+def apply_scale(d, sc):
+    """Scale operator and data (x unchanged; step sizes by 1/s^2), or - for the line-search solvers - data and start
+    (x scales): the stated relations are invariant."""
+    if sc == 1:
+        return d
+    d = dict(d, scale=sc)
+    A = np.array(d['A'])
+    if d['kind'] in ('cg', 'cgn', 'landweber', 'kaczmarz'):
+        d['A'] = (A * sc).tolist()
+        d['b'] = (np.array(d['b']) * sc).tolist()
+        if d.get('omega'):
+            d['omega'] = d['omega'] / sc ** 2
+        if 'omegas' in d:
+            d['omegas'] = [w / sc ** 2 for w in d['omegas']]
+    else:
+        d['b'] = (np.array(d['b']) * sc).tolist()
+        d['x0'] = (np.array(d['x0']) * sc).tolist()
+    return d
+
+
 def smooth_case(args):
     kind, cond, seed = args
     rnd = np.random.default_rng(seed)
     d = smooth_desc(rnd, kind, cond)
+    d = apply_scale(d, float(rnd.choice([1.0, 1.0] + SL.SCALES)))
     its, err = smooth_run(d)
-    cls = 'well' if cond <= 100 else 'ill'
+    cls = ('well' if cond <= 100 else 'ill') + ('/scaled' if d.get('scale') else '')
     out = {'viol': [], 'events': [], 'key': [kind, cls, seed]}
     meta = {'desc': d, 'stage': 'relational'}
     A, b = np.array(d['A']), np.array(d['b'])
@@ -202,6 +223,8 @@ def smooth_case(args):
     ev['meta'] = dict(meta, sig=sig_of(kind, 'monotone', cond=cls), values=vals, drift_only=kind in DRIFT_ONLY)
     out['events'].append(ev)
     if kind == 'cg' and cond <= 100:
+        if len(its) != d['niter'] + 1:        # returned before dim steps although the error is not zero
+            vals = vals + [vals[-1]]
         q = int(min(round(vals[-1] / vals[0] * 2 ** 30), 2 ** 31 - 1))
         out['events'].append({'kind': 'cgfinal', 'e0': 2 ** 30, 'eN': q,
                               'meta': dict(meta, sig=sig_of(kind, 'exact-after-dim', cond=cls), values=vals)})
@@ -225,6 +248,7 @@ def power_desc(rnd):
         A = rnd.normal(size=(m, n))
     if not np.any(A):
         A[0, 0] = 1.0
+    A = A * float(rnd.choice([1.0, 1.0] + SL.SCALES))      # the bound is scale invariant
     x0 = rnd.normal(size=A.shape[1])
     return {'A': A.tolist(), 'x0': x0.tolist(), 'maxiter': int(rnd.choice([2, 4, 10, 100])), 'mkind': str(kind)}
 
@@ -289,43 +313,78 @@ def replay_mono(args):
             out['events'].append({'kind': 'power', 'est': a, 'norm': b,
                                   'meta': dict(base, K=K, est=est, true=true, sig=sig_of(sol, 'power-bound'))})
         return out
-    r = SL.run_real(inst, 'rn', 'opt', [N])
     nontriv = any(rows[k]['ref']['x'] != inst['x0'] for k in rows if k >= 1)
-    out['counts'].append(([sol, inst['tag'], inst['x0'], inst['tau'], inst['sig']], nontriv))
-    if r['err']:
-        out['viol'].append((sig_of(sol, 'raised'), dict(base, error=r['err'])))
-        return out
-    so = snapped_its(r['its'], rows, N)
     exp = {k: rows[k]['ref']['x'] for k in rows if k >= 1}
-    tb = [k for k in so if so[k] != exp[k]]
-    out['events'].append({'kind': 'exact', 'inst': inst, 'nit': N, 'ncb': -1,
-                          'xs': [so.get(k, []) for k in range(1, N + 1)], 'meta': dict(base, clausemap='textbook')})
-    if tb:
-        out['drift'].append('%s %s: real iterates leave the textbook sequence at k=%d' % (SL.REALNAME[sol], inst['tag'], tb[0]))
-    if sol == 'cg':
-        # stated: exact after dimension-many steps  (sol is an integer vector: lattice D = 1)
-        fin = SL.snapvec(r['x'], 1)
-        if fin != inst['sol'] or len(r['its']) != N:
-            out['viol'].append((sig_of(sol, 'exact-after-dim'), dict(base, observed=r['x'].tolist(), expected=inst['sol'])))
-    if sol in MONO_QTY:
-        A = SL.mat(inst['Ls'][0]) if sol != 'kaczmarz' else np.vstack([SL.mat(M) for M in inst['Ls']])
-        b = SL.vec(inst['b'][0]) if sol != 'kaczmarz' else np.concatenate([SL.vec(v) for v in inst['b']])
-        s = SL.vec(inst['sol']) if inst['sol'] else None
-        vals = [quantity(sol, A, b, s, x) for x in [SL.vec(inst['x0'])] + r['its']]
-        if vals[0] > 0:
-            ev = mono_event(sol, vals)
-            ev['meta'] = dict(base, sig=sig_of(sol, 'monotone', cond='lattice'), values=vals)
-            out['events'].append(ev)
-        out['sample'] = {'solver': SL.REALNAME[sol], 'instance': inst['tag'], 'quantity': MONO_QTY[sol], 'values': vals}
+    h = zlib.crc32(json.dumps([inst['tag'], inst['x0']]).encode())
+    scales = [SL.SCALES[h % 3]] if quick else SL.SCALES
+    # the instance as exported and at dyadic scalings of operator / data (iterates scale exactly; every relation is
+    # invariant, an absolute tolerance inside the solver is not)
+    for o in [None] + [{'scale': v} for v in scales]:
+        base = {'inst': inst, 'conc': 'rn', 'stage': 'replay', 'opts': o}
+        okw = {'option': 'scaled'} if o else {}
+        r = SL.run_real(inst, 'rn', 'opt', [N], opts=o)
+        out['counts'].append(([sol, inst['tag'], inst['x0'], inst['tau'], inst['sig'], o], nontriv))
+        if r['err']:
+            out['viol'].append((sig_of(sol, 'raised', **okw), dict(base, error=r['err'])))
+            continue
+        so = snapped_its(r['its'], rows, N)
+        tb = [k for k in so if so[k] != exp[k]]
+        if o is None:
+            out['events'].append({'kind': 'exact', 'inst': inst, 'nit': N, 'ncb': -1,
+                                  'xs': [so.get(k, []) for k in range(1, N + 1)],
+                                  'meta': dict(base, clausemap='textbook')})
+        if tb:
+            out['drift'].append('%s %s: real iterates%s leave the textbook sequence at k=%d' % (
+                SL.REALNAME[sol], inst['tag'], ' (scaled instance)' if o else '', tb[0]))
+        if sol == 'cg':
+            # stated: exact after dimension-many steps  (sol is an integer vector: lattice D = 1)
+            fin = SL.snapvec(r['x'], 1)
+            if fin != inst['sol'] or len(r['its']) != N:
+                out['viol'].append((sig_of(sol, 'exact-after-dim', **okw),
+                                    dict(base, observed=r['x'].tolist(), expected=inst['sol'], iterations=len(r['its']))))
+        if sol in MONO_QTY:
+            A = SL.mat(inst['Ls'][0]) if sol != 'kaczmarz' else np.vstack([SL.mat(M) for M in inst['Ls']])
+            b = SL.vec(inst['b'][0]) if sol != 'kaczmarz' else np.concatenate([SL.vec(v) for v in inst['b']])
+            s = SL.vec(inst['sol']) if inst['sol'] else None
+            vals = [quantity(sol, A, b, s, x) for x in [SL.vec(inst['x0'])] + r['its']]
+            if vals[0] > 0:
+                ev = mono_event(sol, vals)
+                ev['meta'] = dict(base, sig=sig_of(sol, 'monotone', cond='lattice', **okw), values=vals)
+                out['events'].append(ev)
+            if o is None:
+                out['sample'] = {'solver': SL.REALNAME[sol], 'instance': inst['tag'], 'quantity': MONO_QTY[sol],
+                                 'values': vals}
     return out
 
 
-def fixed_run(inst, real, xstar, ystar, nit=3):
+def fixed_run(inst, real, xstar, ystar, nit=3, opts=None):
     """Start the real solver at a KKT pair the way the API allows; returns observed iterates."""
     i2 = dict(inst, solver=real)
     ys = SL.vec(ystar[0]) if real == 'pdhg' else None
-    r = SL.run_real(i2, 'rn', 'opt', [nit], x_start=SL.vec(xstar), y_start=ys, pass_state=(real == 'pdhg'))
+    r = SL.run_real(i2, 'rn', 'opt', [nit], x_start=SL.vec(xstar), y_start=ys, pass_state=(real == 'pdhg'),
+                    opts=opts)
     return r
+
+
+def kkt_options(inst, real):
+    """Keyword options of the non-smooth solvers that leave the claim unchanged: accelerated pdhg (gamma_primal
+    needs f, gamma_dual needs g* strongly convex - the moduli follow from the squared-norm weights), relaxation
+    passed as a callable."""
+    out = []
+    if real == 'pdhg' and SL.qf(inst['th']) == 1.0:
+        g, f = inst['gs'][0], inst['f']
+        if g['k'] == 'L2sq':
+            out.append({'gamma_dual': 1.0 / (4 * SL.qf(g['c']))})
+        if f['k'] == 'L2sq':
+            out.append({'gamma_primal': SL.qf(f['c'])})
+    if real in ('pg', 'dr'):
+        out.append({'lam_callable': True})
+    return out
+
+
+def opt_name(o):
+    from .c11 import option_name
+    return option_name(o or {})
 
 
 def replay_kkt(args):
@@ -361,44 +420,57 @@ def replay_kkt(args):
     rnd = random.Random(seed ^ zlib.crc32(inst['tag'].encode()))
     chosen = pts[:2] + (rnd.sample(pts[2:], min(2 if quick else 6, len(pts) - 2)) if len(pts) > 2 else [])
     reals = [sol] + (['apg'] if sol == 'pg' and SL.qf(inst['th']) == 1.0 else [])
-    for w in chosen:
+    h = zlib.crc32(json.dumps([inst['tag'], inst['tau'], inst['sig']]).encode())
+    for wi, w in enumerate(chosen):
         xstar, ystar = w
         D = 1
         for qq in xstar:
             D = max(D, qq[1])
         for real in reals:
-            fr = fixed_run(inst, real, xstar, ystar)
-            out['counts'].append(([real, inst['tag'], inst['tau'], inst['sig'], 'fixed', xstar, ystar], True))
-            sg = sig_of(real, 'fixed-point', functional=fk)
-            detail = dict(base, real=real, xstar=xstar, ystar=ystar)
-            if fr['err']:
-                out['viol'].append((sig_of(real, 'raised', functional=fk), dict(detail, error=fr['err'])))
-                continue
-            obs = [SL.snapvec(v, D) for v in fr['its']] + [SL.snapvec(fr['x'], D)]
-            if any(o != xstar for o in obs):
-                out['viol'].append((sg, dict(detail, observed=[v.tolist() for v in fr['its']] + [fr['x'].tolist()])))
-            out['events'].append({'kind': 'fixed', 'inst': inst, 'xstar': xstar, 'ystar': ystar,
-                                  'obs': obs, 'nit': len(obs), 'meta': dict(detail, sig=sg, catalogue=True)})
-            out['nfixed'] += 1
-            if out['sample'] is None and any(q[0] != 0 for q in xstar):
-                out['sample'] = {'solver': SL.REALNAME[real], 'instance': inst['tag'], 'kkt_pair': w,
-                                 'observed_after_1_2_3_iterations': [v.tolist() for v in fr['its']]}
+            # as exported, and (first points) at dyadic scalings and under every applicable keyword option
+            variants = [None]
+            if wi < (1 if quick else 2):
+                variants += [{'scale': v} for v in ([SL.SCALES[(h + wi) % 3]] if quick else SL.SCALES)]
+                variants += kkt_options(inst, real)
+            for o in variants:
+                okw = {'option': opt_name(o)} if o else {}
+                fr = fixed_run(inst, real, xstar, ystar, nit=4 if o and 'scale' not in o else 3, opts=o)
+                out['counts'].append(([real, inst['tag'], inst['tau'], inst['sig'], 'fixed', xstar, ystar, o], True))
+                sg = sig_of(real, 'fixed-point', functional=fk, **okw)
+                detail = dict(base, real=real, xstar=xstar, ystar=ystar, opts=o)
+                if fr['err']:
+                    out['viol'].append((sig_of(real, 'raised', functional=fk, **okw), dict(detail, error=fr['err'])))
+                    continue
+                obs = [SL.snapvec(v, D) for v in fr['its']] + [SL.snapvec(fr['x'], D)]
+                if any(ob != xstar for ob in obs):
+                    out['viol'].append((sg, dict(detail, observed=[v.tolist() for v in fr['its']] + [fr['x'].tolist()])))
+                out['events'].append({'kind': 'fixed', 'inst': inst, 'xstar': xstar, 'ystar': ystar,
+                                      'obs': obs, 'nit': len(obs), 'meta': dict(detail, sig=sg, catalogue=True)})
+                out['nfixed'] += 1
+                if out['sample'] is None and o is None and any(q[0] != 0 for q in xstar):
+                    out['sample'] = {'solver': SL.REALNAME[real], 'instance': inst['tag'], 'kkt_pair': w,
+                                     'observed_after_1_2_3_iterations': [v.tolist() for v in fr['its']]}
     # ---- convergence towards optimality (relational): instances that have a solution
     if aux['kkt']:
         r0 = SL.kkt_residual(inst, SL.vec(inst['x0']))
         if r0 >= MIN_KKT0:
             for real in reals:
-                for Nn in ([50, 200] if well_conditioned(inst) else [200]):
-                    rr = SL.run_real(dict(inst, solver=real), 'rn', 'opt', [Nn], pass_state=False)
-                    out['counts'].append(([real, inst['tag'], inst['tau'], inst['sig'], 'conv', Nn], True))
-                    sg = sig_of(real, 'convergence', functional=fk)
+                runs = [(Nn, None) for Nn in ([50, 200] if well_conditioned(inst) else [200])]
+                runs += [(200, {'scale': v}) for v in ([SL.SCALES[h % 3]] if quick else SL.SCALES)]
+                runs += [(200, o) for o in kkt_options(inst, real)]
+                for Nn, o in runs:
+                    okw = {'option': opt_name(o)} if o else {}
+                    rr = SL.run_real(dict(inst, solver=real), 'rn', 'opt', [Nn], pass_state=False, opts=o)
+                    out['counts'].append(([real, inst['tag'], inst['tau'], inst['sig'], 'conv', Nn, o], True))
+                    sg = sig_of(real, 'convergence', functional=fk, **okw)
                     if rr['err']:
-                        out['viol'].append((sig_of(real, 'raised', functional=fk), dict(base, real=real, N=Nn, error=rr['err'])))
+                        out['viol'].append((sig_of(real, 'raised', functional=fk, **okw),
+                                            dict(base, real=real, N=Nn, opts=o, error=rr['err'])))
                         continue
                     rN = SL.kkt_residual(inst, rr['x'])
                     a, b = SL.exact.quantise_pair(r0, rN, bits=20)
                     out['events'].append({'kind': 'conv', 'solver': real, 'r0': a, 'rN': b,
-                                          'meta': dict(base, real=real, N=Nn, kkt0=r0, kktN=rN, sig=sg)})
+                                          'meta': dict(base, real=real, N=Nn, opts=o, kkt0=r0, kktN=rN, sig=sg)})
                     out['nconv'] += 1
     return out
 
@@ -516,31 +588,37 @@ def kkt_case(args):
     if got is None:
         return out
     inst, xstar, ystar = got
+    if solver == 'dr':
+        inst['th'] = rnd.choice([[1, 1], [1, 1], [1, 2], [3, 2]])          # relaxation 0 < lam < 2
     fk = SL.fkind(inst['f'])
     D = max([q[1] for q in xstar] + [1])
     reals = [solver] + (['apg'] if solver == 'pg' else [])
     out['key'] = [solver, inst['tag'], seed]
     for real in reals:
-        fr = fixed_run(inst, real, xstar, ystar)
-        detail = {'inst': inst, 'conc': 'rn', 'stage': 'relational', 'real': real, 'xstar': xstar, 'ystar': ystar}
+        # a keyword option / dyadic scaling drawn per case (the plain call is the most frequent)
+        o = rnd.choice([None, None, {'scale': rnd.choice(SL.SCALES)}] + kkt_options(inst, real))
+        okw = {'option': opt_name(o)} if o else {}
+        fr = fixed_run(inst, real, xstar, ystar, nit=4 if o and 'scale' not in o else 3, opts=o)
+        detail = {'inst': inst, 'conc': 'rn', 'stage': 'relational', 'real': real, 'xstar': xstar, 'ystar': ystar,
+                  'opts': o}
         if fr['err']:
-            out['viol'].append((sig_of(real, 'raised', functional=fk), dict(detail, error=fr['err'])))
+            out['viol'].append((sig_of(real, 'raised', functional=fk, **okw), dict(detail, error=fr['err'])))
             continue
         obs = [SL.snapvec(v, D) for v in fr['its']] + [SL.snapvec(fr['x'], D)]
         out['events'].append({'kind': 'fixed', 'inst': inst, 'xstar': xstar, 'ystar': ystar, 'obs': obs,
                               'nit': len(obs),
-                              'meta': dict(detail, sig=sig_of(real, 'fixed-point', functional=fk), catalogue=False,
+                              'meta': dict(detail, sig=sig_of(real, 'fixed-point', functional=fk, **okw), catalogue=False,
                                            observed=[v.tolist() for v in fr['its']])})
         # convergence from a distant start: a solution exists by construction; strongly convex instances only
         if strongly_convex(inst):
             r0 = SL.kkt_residual(inst, SL.vec(inst['x0']))
-            rr = SL.run_real(dict(inst, solver=real), 'rn', 'opt', [200], pass_state=False)
+            rr = SL.run_real(dict(inst, solver=real), 'rn', 'opt', [200], pass_state=False, opts=o)
             if r0 >= MIN_KKT0 and not rr['err']:
                 rN = SL.kkt_residual(inst, rr['x'])
                 a, b = SL.exact.quantise_pair(r0, rN, bits=20)
                 out['events'].append({'kind': 'conv', 'solver': real, 'r0': a, 'rN': b,
                                       'meta': dict(detail, N=200, kkt0=r0, kktN=rN,
-                                                   sig=sig_of(real, 'convergence', functional=fk))})
+                                                   sig=sig_of(real, 'convergence', functional=fk, **okw))})
             # the solver's own default step-size rule (pdhg_stepsize / douglas_rachford_pd_stepsize)
             if real in ('pdhg', 'dr') and r0 >= MIN_KKT0:
                 rd = SL.run_real(inst, 'rn', 'opt', [200], pass_state=False, default_steps=True)
@@ -550,7 +628,7 @@ def kkt_case(args):
                     rN = SL.kkt_residual(inst, rd['x'])
                     a, b = SL.exact.quantise_pair(r0, rN, bits=20)
                     out['events'].append({'kind': 'conv', 'solver': real, 'r0': a, 'rN': b,
-                                          'meta': dict(detail, N=200, kkt0=r0, kktN=rN, default_steps=True,
+                                          'meta': dict(detail, N=200, kkt0=r0, kktN=rN, default_steps=True, opts=None,
                                                        sig=sig_of(real, 'convergence', functional=fk, steps='default'))})
     return out
 
@@ -731,14 +809,14 @@ def replay(body):
     inst = d['inst']
     print('instance :', inst['solver'], inst['tag'])
     if clause == 'fixed-point':
-        fr = fixed_run(inst, d['real'], d['xstar'], d['ystar'])
+        fr = fixed_run(inst, d['real'], d['xstar'], d['ystar'], nit=4, opts=d.get('opts'))
         xs = SL.vec(d['xstar'])
         print('KKT point:', xs, 'observed:', [v.tolist() for v in fr['its']], fr['err'])
         bad = bool(fr['err']) or any(not np.allclose(v, xs, rtol=0, atol=2.0 ** -21) for v in fr['its'] + [fr['x']])
     elif clause == 'convergence':
         r0 = SL.kkt_residual(inst, SL.vec(inst['x0']))
         rr = SL.run_real(dict(inst, solver=d['real']), 'rn', 'opt', [d['N']], pass_state=False,
-                         default_steps=bool(d.get('default_steps')))
+                         default_steps=bool(d.get('default_steps')), opts=d.get('opts'))
         rN = SL.kkt_residual(inst, rr['x']) if not rr['err'] else float('inf')
         print('kkt_0', r0, 'kkt_N', rN, 'N', d['N'], rr['err'])
         bad = 10 * rN > r0 * (1 + 1e-4)
@@ -751,7 +829,7 @@ def replay(body):
         print('estimate', est, 'true norm', true)
         bad = est > true * (1 + 2e-9)
     elif clause in ('monotone', 'exact-after-dim'):
-        r = SL.run_real(inst, 'rn', 'opt', [inst['N']])
+        r = SL.run_real(inst, 'rn', 'opt', [inst['N']], opts=d.get('opts'))
         sol = inst['solver']
         A = SL.mat(inst['Ls'][0]) if sol != 'kaczmarz' else np.vstack([SL.mat(M) for M in inst['Ls']])
         b = SL.vec(inst['b'][0]) if sol != 'kaczmarz' else np.concatenate([SL.vec(v) for v in inst['b']])
@@ -759,7 +837,7 @@ def replay(body):
         vals = [quantity(sol, A, b, s, x) for x in [SL.vec(inst['x0'])] + r['its']]
         print('values   :', vals, r['err'])
         if clause == 'exact-after-dim':
-            bad = not np.allclose(r['x'], s, rtol=0, atol=2.0 ** -21)
+            bad = bool(r['err']) or len(r['its']) != inst['N'] or not np.allclose(r['x'], s, rtol=0, atol=2.0 ** -21)
         else:
             bad = bool(r['err']) or any(vals[i + 1] > vals[i] * (1 + 2.0 ** -30) + 1e-10 * vals[0] for i in range(len(vals) - 1))
     else:
